@@ -168,6 +168,12 @@ func (chain *BlockChain) maybeAcceptBlock(broadcast bool, block *types.BlockDeta
 		chainlog.Error("maybeAcceptBlock", "height", blockHeight, "err", types.ErrCheckTxHash, "pid", pid)
 		return nil, false, types.ErrCheckTxHash
 	}
+	// the block's own signature is covered by neither the hash nor the transaction root: a copy of a
+	// valid block with a broken block signature must not be stored and indexed under that block's hash
+	if pid != "self" && !types.VerifySignature(chain.client.GetConfig(), block.Block, nil) {
+		chainlog.Error("maybeAcceptBlock", "height", blockHeight, "err", types.ErrSign, "pid", pid)
+		return nil, false, types.ErrSign
+	}
 
 	//将此block存储到db中，方便后面blockchain重组时使用，加入到主链saveblock时通过hash重新覆盖即可
 	sync := true
